@@ -306,6 +306,14 @@ async def run_scenario(aiocoap, sc):
                 m.token, m.remote = first.token, remote
                 deliver(m)
                 await turn(4)
+            elif st[0] == "FB":
+                # a final response (2.05 without Observe: the server drops the observer) whose body is block-wise
+                state["cur"] = st[1]
+                state["served"].append(("F", 69, None, st[1]))
+                m = block_response(first.token, 0, "ok", observe=0)
+                m.opt.observe = None
+                deliver(m)
+                await turn(4)
             elif st[0] == "X":
                 try:
                     tman.dispatch_error({1: error.ConRetransmitsExceeded(), 2: error.NetworkError("harness")}[st[1]],
@@ -399,6 +407,7 @@ def oracle(sc, res):
     # ---- what the server did, in the order it did it: notifications N / final response F / transport failure X on
     # the observation's token, replies B to block requests
     end = None                 # None | ("final", code) | ("error", name)
+    final_body = b"final"      # what the final response carries: the literal, or a representation (block-wise)
     ended_by_fetch = False
     arrived = []               # (rep, obs, position in the log) of the notifications that arrived before the end
     served = []                # (rep served from, block number, how) of the block replies before the end
@@ -413,6 +422,7 @@ def oracle(sc, res):
             if is_notification(ev[1], ev[2]):
                 raise AssertionError("scenario: F must not be a notification")
             end = ("final", ev[1])
+            final_body = ev[3] if len(ev) > 3 else b"final"
         elif ev[0] == "X":
             end = ("error", EXC[ev[1]])
         if end is not None:
@@ -444,7 +454,11 @@ def oracle(sc, res):
     tail = seen[k:]
     if any(x[0] == "item" for x in tail):
         return f"something was handed over after the end: {seen}", "bw:after-end"
-    full = [x[1] for x in items if x[0] == 69 and isinstance(x[1], int)]
+    notif_items = items
+    if end is not None and end[0] == "final" and isinstance(final_body, int) and items \
+            and tuple(items[-1]) == (end[1], final_body):
+        notif_items = items[:-1]           # the (block-wise) final response is no notification
+    full = [x[1] for x in notif_items if x[0] == 69 and isinstance(x[1], int)]
     for code, what in items:
         if code == 69 and not isinstance(what, int):
             # a 2.05 that is none of the server's representations: the bytes of one block handed over as a body
@@ -491,7 +505,7 @@ def oracle(sc, res):
         elif tail != [("raise", end[1])]:
             return f"transport failure: the iteration must raise {end[1]}, it gave {tail or 'nothing'}", "bw:end"
     if end is not None and end[0] == "final":
-        if not items or items[-1][0] != end[1] or items[-1][1] != b"final":
+        if not items or items[-1][0] != end[1] or items[-1][1] != final_body:
             return f"the final response ({end[1]}) was not the last thing handed over: {items}", "bw:final-lost"
     if ended_by_fetch or end is not None:
         # (the queue between the lower observation and the loop is lossy: a notification not yet fetched when the
@@ -582,6 +596,12 @@ def boundary_scenarios():
             # an older notification arrives late
             out.append({"consumer": cons, "work": work, "reps": reps, "hows": [],
                         "steps": [["serve"], ["N", a, 5], ["serve"], ["N", b, 3], ["serve"], ["N", 5, 6], ["serve"]]})
+    # the observation ends with a final response that is itself block-wise (the server drops the observer of a large
+    # resource with a plain 2.05): its body is fetched and handed over, then the end (oracle only)
+    for cons, work in consumers:
+        for pre in ([], [["N", 1, 2], ["serve"]], [["N", 1, 2]]):
+            out.append({"consumer": cons, "work": work, "reps": reps, "hows": [], "oracle_only": True,
+                        "steps": [["serve"]] + pre + [["FB", 2], ["serve"]]})
     # error responses carrying an Observe option, in the middle of a fetch and after it
     for cons, work in consumers:
         for code, o in ((132, 9), (132, 1), (160, 9)):
